@@ -192,6 +192,13 @@ func (p *poller) Poll(timeoutMs int) (n int, err error) {
 			continue
 		}
 
+		// EPOLLHUP and EPOLLERR are reported regardless of the registered interest and possibly on their own (e.g. the
+		// last writer of a pipe went away, the reader of a full pipe went away). Treat them as readiness of whatever is
+		// registered so that the pending operation runs and observes the EOF/error instead of never completing.
+		if events&PollerEvent(syscall.EPOLLHUP|syscall.EPOLLERR) != 0 {
+			events |= slot.Events
+		}
+
 		if events&slot.Events&PollerReadEvent == PollerReadEvent {
 			// TODO this errors should be reported
 			_ = p.DelRead(slot)
